@@ -274,9 +274,60 @@ BPlusTree_items(BPlusTree *self, PyObject *Py_UNUSED(args)) {
 }
 
 
+#ifdef KENTBECK_BPLUSTREE3_VERIF
+/* Verification hook (compiled only with -DKENTBECK_BPLUSTREE3_VERIF): the tree
+ * as nested Python data.  Leaf: ('L', node address, [keys], [values], next address or None);
+ * branch: ('B', [keys], [children]). */
+static PyObject *
+verif_dump_node(BPlusNode *node)
+{
+    if (!node) {
+        Py_RETURN_NONE;
+    }
+    PyObject *keys = PyList_New(0);
+    if (!keys) return NULL;
+    for (int i = 0; i < node->num_keys; i++) {
+        PyObject *k = node_get_key(node, i);
+        if (PyList_Append(keys, k ? k : Py_None) < 0) { Py_DECREF(keys); return NULL; }
+    }
+    if (node->type == NODE_LEAF) {
+        PyObject *vals = PyList_New(0);
+        if (!vals) { Py_DECREF(keys); return NULL; }
+        for (int i = 0; i < node->num_keys; i++) {
+            PyObject *v = node_get_value(node, i);
+            if (PyList_Append(vals, v ? v : Py_None) < 0) { Py_DECREF(keys); Py_DECREF(vals); return NULL; }
+        }
+        PyObject *next = node->next ? PyLong_FromVoidPtr(node->next) : (Py_INCREF(Py_None), Py_None);
+        PyObject *self_addr = PyLong_FromVoidPtr(node);
+        return Py_BuildValue("(sNNNN)", "L", self_addr, keys, vals, next);
+    }
+    PyObject *children = PyList_New(0);
+    if (!children) { Py_DECREF(keys); return NULL; }
+    for (int i = 0; i <= node->num_keys; i++) {
+        PyObject *c = verif_dump_node(node_get_child(node, i));
+        if (!c || PyList_Append(children, c) < 0) { Py_XDECREF(c); Py_DECREF(keys); Py_DECREF(children); return NULL; }
+        Py_DECREF(c);
+    }
+    return Py_BuildValue("(sNN)", "B", keys, children);
+}
+
+static PyObject *
+BPlusTree_verif_dump(BPlusTree *self, PyObject *Py_UNUSED(ignored))
+{
+    PyObject *tree = verif_dump_node(self->root);
+    if (!tree) return NULL;
+    return Py_BuildValue("(iKKN)", (int)self->capacity, (unsigned long long)self->size,
+                         (unsigned long long)self->modification_count, tree);
+}
+#endif /* KENTBECK_BPLUSTREE3_VERIF */
+
 /* Method definitions */
 
 static PyMethodDef BPlusTree_methods[] = {
+#ifdef KENTBECK_BPLUSTREE3_VERIF
+    {"_verif_dump", (PyCFunction)BPlusTree_verif_dump, METH_NOARGS,
+     "verification hook: (capacity, size, modification_count, tree)"},
+#endif
     {"keys", (PyCFunction)BPlusTree_keys, METH_NOARGS,
      "Return an iterator over the tree's keys"},
     {"items", (PyCFunction)BPlusTree_items, METH_VARARGS,
